@@ -4,6 +4,8 @@ set -e
 cd "$(dirname "$0")"
 coqc -Q ../coq Moss Extract.v >/dev/null
 mkdir -p ../.build
-for drv in flatrun treerun indexrun rorun crashrun codecrun histrun faultrun iterrun syncrun concrun refsrun; do
+for drv in flatrun treerun indexrun rorun crashrun codecrun histrun faultrun iterrun syncrun concrun refsrun ownersrun; do
   ocamlfind ocamlopt -w -a -package str model.mli model.ml sexp.ml conv.ml $drv.ml -o ../.build/$drv
 done
+# the persistence-round model (StoreOps.v) is extracted into opsmodel.ml by Extract.v
+ocamlfind ocamlopt -w -a -package str opsmodel.mli opsmodel.ml sexp.ml opsrun.ml -o ../.build/opsrun
